@@ -69,12 +69,11 @@ SPEC = {
         "count-file metadata carries UTC (Z) instants with years 0..9999, as the counter library writes and RFC3339 allows",
         "X and the sample rate are not NaN (computeRandom never returns NaN; JSON cannot encode it); the runner orders "
         "float64 values by an order-preserving integer key computed in the Go harness",
-        "the telemetry directory path contains no date string (notNeeded tests strings.Contains on full paths)",
         "entries of local/ named *.json are regular files; one uploader at a time (locks are modelled only as stale files)",
     ],
     "trusted_base": [],
     "own_objects": ["theories/Props/C02.vo", "theories/Proofs/ModeFacts.vo", "theories/Proofs/GatingFacts.vo",
                     "theories/Proofs/RunFacts.vo", "theories/Proofs/SpecFacts.vo", "theories/Proofs/DateOrder.vo",
-                    "theories/Proofs/DateInverse.vo", "theories/Proofs/DateKey.vo",
+                    "theories/Proofs/DateMono.vo",
                     "theories/Model/Mode.vo", "theories/Model/Gating.vo"],
 }
